@@ -160,3 +160,4 @@ pub fn g1_of(p: &G1Projective) -> G1Affine {
 pub fn g2_of(p: &G2Projective) -> G2Affine {
     p.to_affine()
 }
+
